@@ -186,8 +186,12 @@ def ensure_harness(name, variant="plain", extra=(), libs=("-lzstd", "-lcrypto"))
     d = ensure_lib(variant)
     cc, cflags, ldflags, ossl = VARIANTS[variant]
     hh = hashlib.sha256()
-    for f in (name + ".c", "zh_common.h"):
-        hh.update(open(os.path.join(VERIF, "harness", f), "rb").read())
+    # every file of harness/ goes into the key: harnesses include each other (zh_c17.c -> zh_c05.c) and iowrap.h
+    for f in sorted(os.listdir(os.path.join(VERIF, "harness"))):
+        if f.endswith((".c", ".h")):
+            hh.update(f.encode())
+            hh.update(open(os.path.join(VERIF, "harness", f), "rb").read())
+    hh.update(name.encode())
     hh.update(repr((extra, libs)).encode())
     exe = os.path.join(d, name + "_" + hh.hexdigest()[:10])
     with Lock():
